@@ -264,7 +264,7 @@ class Env:
                         why = "serialized_twice"
                     elif not _same(v, {"ser": VAL[n]}):
                         why = "serialized_value"
-                elif n in ("hv", "result"):
+                elif n in ("hv", "hz", "result"):
                     pass
                 elif n == "n":
                     if v != 3:
@@ -313,7 +313,7 @@ class Env:
                     real(message)
                 except Exception as e:          # genuine JSON failure: a destination failure like any other
                     raised, err = True, e
-                    hostile = "hv" in message or (isinstance(message.get("x"), dict) and isinstance(message["x"].get("ser"), Uncopyable))
+                    hostile = "hv" in message or "hz" in message or (isinstance(message.get("x"), dict) and isinstance(message["x"].get("ser"), Uncopyable))
                     if proj is not None and not hostile and not proj["why"]:
                         # every other value this harness logs is JSON-native or a documented rich type: it must be written
                         proj["why"] = "file_rejected_native_message"
@@ -580,7 +580,11 @@ class Runner:
                 else:
                     env.acts[op["a"] - 1].log(message_type=op["ty"], mf=VAL["mf"], **env.collide())
             elif name == "AddSuccess":
-                env.acts[op["a"] - 1].add_success_fields(**{op["f"]: VAL[op["f"]]})
+                if op["f"] == "hz":
+                    env.hostile_n += 1
+                    env.acts[op["a"] - 1].add_success_fields(hz=HOSTILE[env.hostile_n % len(HOSTILE)]())
+                else:
+                    env.acts[op["a"] - 1].add_success_fields(**{op["f"]: VAL[op["f"]]})
             elif name == "StdlibLog":
                 import logging
                 from eliot.stdlib import EliotHandler
@@ -598,7 +602,7 @@ class Runner:
                     lg.warning("plain %s", "record")
             elif name == "LogCall":
                 # a function decorated with log_call (action type "LC"), whose body logs one message
-                res = object()
+                res = ["the result", len(env.ev)]          # JSON-native, and checked by identity
                 boom = env.make_exc("exc") if op["o"] != "ok" else None
 
                 def lc_body(x, y=VAL["y"]):
@@ -626,8 +630,8 @@ class Runner:
                     v = "mutated"
             elif name == "WriteTraceback":
                 try:
-                    raise (RuntimeError("unexpected") if op.get("o", "exc") == "exc" else env.make_exc(op["o"]))
-                except Exception:
+                    raise env.make_exc(op.get("o", "exc"))          # any exception class, hostile ones included
+                except BaseException:
                     write_traceback()
             elif name == "SerializeId":
                 tid = current_action().serialize_task_id()
@@ -721,7 +725,7 @@ def forest_of(env):
         filewhy = filewhy or "line_count"
     else:
         for dmsg, (omsg, _) in zip(decoded, offered):
-            if "hv" in omsg:
+            if "hv" in omsg or "hz" in omsg:
                 continue                    # hostile values: their encoding is C10's subject (json.tla), not this engine's
             if not _same(dmsg, omsg):
                 filewhy = filewhy or "line_differs_from_message"
